@@ -531,8 +531,9 @@ Section Consistency.
     exists rf q r rest, resolve_ref main rs = Some rf /\ t = (q, r) :: rest /\
       r_status r = 200 /\ c = r_body r /\
       ((rest = [] /\ gen_desc H parse_mt limit r rf false = Some d) \/
-       (r_clen r = None /\ exists q2 r2, rest = [(q2, r2)] /\ r_status r2 = 200 /\
-                                         gen_desc H parse_mt limit r2 rf true = Some d)).
+       (r_clen r = None /\ dig_consistent r (d_dg d) /\
+        exists q2 r2, rest = [(q2, r2)] /\ r_status r2 = 200 /\
+                      gen_desc H parse_mt limit r2 rf true = Some d)).
   Proof.
     unfold man_fetchref. destruct (resolve_ref main rs) as [rf|] eqn:ER; [|discriminate].
     destruct (exch s _) as [s1 r].
@@ -543,11 +544,51 @@ Section Consistency.
       + destruct (man_resolve _ _ _ _ _ _ _ s1 rs) as [[s2 t2] res2] eqn:E2.
         intro X. injection X as _ <- X.
         destruct (man_resolve_shape _ _ _ _ _ E2) as [[d0 ->]|[e ->]]; [|discriminate].
-        injection X as <- <-.
+        destruct (verify_digest r (d_dg d0)) eqn:Ev; [|discriminate].
+        injection X as <- <-. apply verify_digest_spec in Ev.
         apply man_resolve_consistent in E2 as (rf' & q2 & r2 & ER' & -> & _ & Es2 & G).
         rewrite ER in ER'. injection ER' as <-.
         eexists rf, _, r, _. repeat (split; [reflexivity|]). split; [exact Es|]. split; [reflexivity|].
-        right. split; [exact Ec|]. eauto.
+        right. split; [exact Ec|]. split; [exact Ev|]. eauto.
+    - intro X. injection X as _ _ X. destruct (r_status r =? 404); discriminate.
+  Qed.
+
+  (* blob FetchReference: the descriptor is for the digest asked for, the body is the GET's,
+     and the GET's digest header does not contradict it -- also when the descriptor comes
+     from a second (HEAD) request because the GET has no Content-Length *)
+  Lemma blob_resolve_shape s rs s' t res :
+    blob_resolve parse_mt main srv exch s rs = (s', t, res) ->
+    (exists d, res = RDesc d) \/ (exists e, res = RErr e).
+  Proof using parse_mt main srv exch.
+    unfold blob_resolve. destruct (resolve_ref main rs) as [rf|]; [|intro X; injection X as _ _ <-; eauto].
+    destruct (negb (valid_digest rf)); [intro X; injection X as _ _ <-; eauto|].
+    destruct (exch s _) as [s1 r]. intro X. injection X as _ _ <-.
+    destruct (r_status r =? 200); [destruct (gen_blob_desc _ _ _); eauto|].
+    destruct (r_status r =? 404); unfold status_err; eauto.
+  Qed.
+
+  Theorem blob_fetchref_consistent s rs s' t d c :
+    blob_fetchref parse_mt main srv exch s rs = (s', t, RDescBytes d c) ->
+    exists rf q r rest, resolve_ref main rs = Some rf /\ valid_digest rf = true /\ t = (q, r) :: rest /\
+      r_status r = 200 /\ c = r_body r /\ d_dg d = rf /\ dig_consistent r rf.
+  Proof using parse_mt main srv exch.
+    unfold blob_fetchref. destruct (resolve_ref main rs) as [rf|] eqn:ER; [|discriminate].
+    destruct (valid_digest rf) eqn:V; cbn [negb]; [|discriminate].
+    destruct (exch s _) as [s1 r].
+    destruct (r_status r =? 200) eqn:Es.
+    - apply N.eqb_eq in Es. destruct (r_clen r) as [n|] eqn:Ec.
+      + intro X. injection X as _ <- X.
+        destruct (gen_blob_desc parse_mt r rf) eqn:Eg; [|discriminate]. injection X as <- <-.
+        apply gen_blob_desc_consistent in Eg as (A & B & C).
+        eexists rf, _, r, []. split; [reflexivity|]. split; [exact V|]. split; [reflexivity|]. auto.
+      + destruct (blob_resolve _ _ _ _ s1 rs) as [[s2 t2] res2] eqn:E2.
+        intro X. injection X as _ <- X.
+        destruct (blob_resolve_shape _ _ _ _ _ E2) as [[d0 ->]|[e ->]]; [|discriminate].
+        destruct (verify_digest r (d_dg d0)) eqn:Ev; [|discriminate].
+        injection X as <- <-. apply verify_digest_spec in Ev.
+        apply blob_resolve_consistent in E2 as (rf' & q2 & r2 & ER' & _ & _ & _ & Hd & _).
+        rewrite ER in ER'. injection ER' as <-. rewrite Hd in Ev.
+        eexists rf, _, r, _. split; [reflexivity|]. split; [exact V|]. split; [reflexivity|]. auto.
     - intro X. injection X as _ _ X. destruct (r_status r =? 404); discriminate.
   Qed.
 
@@ -583,13 +624,17 @@ Section Consistency.
   Theorem complete_push_consistent s r1 d c sized s' t :
     complete_push srv exch s r1 d c sized = (s', t, ROk) ->
     exists rp ep q r2, r_loc r1 = Some (rp, ep) /\ t = [(q, r2)] /\ r_status r2 = 201 /\
-                       q_repo q = rp /\ q_ep q = ep /\ q_digest q = Some (d_dg d) /\ q_body q = c.
+                       q_repo q = rp /\ q_ep q = ep /\ q_digest q = Some (d_dg d) /\ q_body q = c /\
+                       (* a well-formed digest header names the pushed blob *)
+                       (valid_digest (nstr (r_dig r2)) = true -> nstr (r_dig r2) = d_dg d).
   Proof.
     unfold complete_push. destruct (r_loc r1) as [[rp ep]|]; [|discriminate].
     destruct (sized && negb (len c =? d_sz d)); [discriminate|].
     destruct (exch s _) as [s2 r2]. intro X. injection X as _ <- X.
     destruct (r_status r2 =? 201) eqn:Es; [|discriminate]. apply N.eqb_eq in Es.
-    eexists rp, ep, _, r2. repeat (split; [reflexivity|]). split; [exact Es|]. cbn. auto.
+    destruct (valid_digest (nstr (r_dig r2)) && negb (str_eqb (nstr (r_dig r2)) (d_dg d))) eqn:Ed; [discriminate|].
+    eexists rp, ep, _, r2. repeat (split; [reflexivity|]). split; [exact Es|]. cbn. repeat split; auto.
+    intro V. rewrite V in Ed. cbn in Ed. apply negb_false_iff in Ed. now apply str_eqb_spec.
   Qed.
 
   Lemma blob_fetch_shape repo s d s' t res :
